@@ -49,6 +49,19 @@ def gen_history(rng, n):
             salt = bytes(rng.randrange(256) for _ in range(8))
             pt = scoped + bytes(rng.randrange(256) for _ in range(rng.choice([0, 0, 1, 7, 9, 16])))
             bad_len = False
+            if rng.random() < 0.12 and len(scoped) > 20:
+                # the element declares more octets than the ciphertext carries (1..15 missing at the end):
+                # must be refused, never completed from whatever the key's private buffer still holds
+                d = rng.randrange(1, 16)
+                pt = scoped[:-d]
+                if alg == 1:
+                    pt = pt[:len(pt) - len(pt) % 8]
+                    ct = C.usm_des_encrypt(kul, salt, pt)
+                else:
+                    ct = C.usm_aes_encrypt(kul, boots, tm, salt, pt)
+                lines.append("priv_dec\tk\t%d\t%d\t%s\t%s" % (boots, tm, salt.hex(), ct.hex()))
+                checks.append(("dec_overrun", d))
+                continue
             if alg == 1:
                 if rng.random() < 0.15:
                     pt = pt + b"\x00" * ((-len(pt)) % 8) + b"\x01\x02\x03"  # not a block multiple: must be refused
@@ -100,6 +113,11 @@ def judge_history(chk, variant, lines, checks, out, hist_id):
                               "history step %d [%s]: msgData decrypts to %d octets; expected the %d-octet scoped PDU + < %d padding; prefix equal: %s" % (
                                   i, variant, len(pt), len(scoped), block, pt[:len(scoped)] == scoped),
                               {"variant": variant, "lines": lines[:i + 1], "plaintext": pt.hex()[:400], "expected": scoped.hex()[:400]})
+        elif ck[0] == "dec_overrun":
+            chk.distinct.add("R:dec:overrun")
+            if o[0] == "ok":
+                chk.violation("dec:overrun", "history step %d [%s]: a scoped PDU whose last %d octets were never sent was accepted: %s" % (i, variant, ck[1], "\t".join(o)[:160]),
+                              {"variant": variant, "lines": lines[:i + 1]})
         else:
             _, bad_len, ctx, rid, nvb, oids = ck
             if bad_len:
@@ -146,6 +164,8 @@ def rig_r(chk, tier, seed):
                 chk.violation("rigr:died:%s" % (reps[0][1] if reps else variant), "ldrive %s died in history %d: %s" % (variant, h, se[-300:]), {"lines": lines})
                 continue
             steps += judge_history(chk, variant, lines, checks, out, h)
+            if h == 0 and variant == "rel":
+                chk.sample({"privkey_history_lines": [l[:120] for l in lines[:4]], "library_output": ["\t".join(o)[:120] for o in out[:4]]})
         st[variant] = {"histories": nh, "steps": steps}
         chk.seen(steps)
     chk.extra["rig_r_histories"] = st
@@ -159,7 +179,8 @@ def rig_p(chk, tier, seed):
         knobs = {"sessions": 4, "versions": ["v3"], "auths": ["md5", "sha1"], "privs": ["des", "aes"], "reply_pad": True,
                  "beh_weights": [70, 6, 12, 12], "timeout": 0.5,
                  "ops": ["get", "get_many", "getnext", "getbulk", "fetch", "refresh", "oversize", "get", "get_many"]}
-        jobs = [{"seed": seed * 99989 + i, "steps": steps, "aspects": ASPECTS, "knobs": knobs} for i in range(16)]
+        jobs = [{"seed": seed * 99989 + i, "steps": steps, "aspects": ASPECTS,
+                 "knobs": dict(knobs, shared_pw=("samepass%d" % i) if i % 2 else None)} for i in range(16)]
         outs = runner.run_workers("vlib.scenario", "worker", jobs, variant=variant, timeout=3000)
         stats[variant] = c03.collect(chk, outs, variant, PID)
         chk.seen(stats[variant]["requests"])
@@ -180,7 +201,6 @@ def main():
     C.self_test(cross=(a.tier != "quick"))
     rig_r(chk, a.tier, a.seed)
     rig_p(chk, a.tier, a.seed)
-    chk.sample({"history": "priv_new DES; enc(get,1 oid); dec(reply+7 pad); enc(bulk); enc(400 oids -> OutOfBuffer); enc(get)", "judged": "each msgData == scoped PDU + <8 pad"})
     sys.exit(chk.finish())
 
 
